@@ -6,6 +6,7 @@
  3. Canonical forms (floats by bit pattern) and bitwise behaviour comparison used by the oracles.
 """
 import ast
+from . import srcnorm as _srcnorm
 import enum
 import os
 import sys
@@ -38,7 +39,7 @@ class Unsupported(Exception):
 # =====================================================================================================
 def _parse(rel):
     path = os.path.join(PKG, rel)
-    return ast.parse(open(path).read()), path
+    return _srcnorm.parse_file(path), path
 
 
 def _cls(tree, name, rel):
@@ -312,7 +313,7 @@ def serial_facts():
             for mname in ('to_dict', 'from_dict', 'save', 'load', '__new__'):
                 if _meth(c2, mname, required=False) is not None:
                     raise Unsupported(f'{sub} overrides {mname} (not modelled)')
-        init = ast.parse(open(os.path.join(PKG, 'bivariate', '__init__.py')).read())
+        init = _srcnorm.parse_file(os.path.join(PKG, 'bivariate', '__init__.py'))
         imported = []
         for n in init.body:
             if isinstance(n, ast.ImportFrom) and n.module and n.module.startswith('copulas.bivariate.'):
